@@ -317,7 +317,7 @@ func c05DMDamage(r *fw.Rec, d *dmSym, kind int) bool {
 }
 
 func c05(c *fw.Ctx) {
-	c.Rule("library-written QR symbols of all 160 (version, level) pairs and Data Matrix symbols of all 30 sizes; damage applied as module flips at codeword positions computed by qrref/dmref: per RS block up to t = floor(ec/2) codewords with arbitrary replacement values (all blocks at t, random below t, one block at t, first/last positions incl. the long block's extra byte, fully inverted codewords); thorough: every single codeword position of every block; QR format information: every subset of <= 3 of 15 bits of one copy with an independent random <= 3-bit error in the other copy; version information likewise (18 bits, versions >= 7); oracle: decoded text identical; distinct = distinct (symbol, damage pattern)")
+	c.Rule("library-written QR symbols of all 160 (version, level) pairs and Data Matrix symbols of all 30 sizes; damage applied as module flips at codeword positions computed by qrref/dmref: per RS block up to t = floor(ec/2) codewords with arbitrary replacement values (all blocks at t, random below t, one block at t, first/last positions incl. the long block's extra byte, fully inverted codewords); thorough: every single codeword position of every block; QR format information: every subset of <= 3 of 15 bits of one copy with an independent random <= 3-bit error in the other copy; version information likewise (18 bits, versions >= 7); histories of damaged symbols with many-then-few error-correction codewords per block on ONE decoder instance; oracle: decoded text identical; distinct = distinct (symbol, damage pattern)")
 	c.Assume("qrref.CodewordModules / dmref.CodewordModules give the module positions of every codeword bit (cross-checked by C07/C08: the same functions build the reference symbols that the library reproduces module for module)")
 	reps := c.Pick(1, 4)
 	for v := 1; v <= 40; v++ {
@@ -449,6 +449,13 @@ func c05(c *fw.Ctx) {
 			}
 		}
 	}
+	nre := c.Pick(40, 600)
+	for i := 0; i < nre; i++ {
+		c.Run(fmt.Sprintf("qr/reuse/%d", i), func(r *fw.Rec) { c05QRReuse(r) })
+		c.Run(fmt.Sprintf("dm/reuse/%d", i), func(r *fw.Rec) { c05DMReuse(r) })
+	}
+	c.Floor("qr_reused_decoder_histories", int64(nre*8/10))
+	c.Floor("dm_reused_decoder_histories", int64(nre*8/10))
 	c.Floor("qr_version_level_pairs_damaged", int64(160*reps))
 	c.Floor("dm_sizes_damaged", int64(30*dmReps))
 	c.Floor("qr_format_subsets_tolerated", 500)
